@@ -256,7 +256,8 @@ DsVal model_ds(const std::string &name, const std::string &arg, CallCtx &c) {
     }
     else if (name == "datetime") {
         int64_t s, us; if (!next_clock(c, s, us)) { v.modelled = false; return v; }
-        v.text = host_strftime(w, arg.empty() ? "%FT%T%z" : arg, s);
+        std::vector<std::string> cands = host_strftime_all(w, arg.empty() ? "%FT%T%z" : arg, s);
+        v.text = cands[0]; for (size_t k = 1; k < cands.size(); k++) v.alts.push_back(cands[k]);
     }
     else if (name == "cgroup") {
         if (arg.empty()) { v.failed = true; v.text = "Missing cgroup selection argument"; return v; }
